@@ -1463,6 +1463,7 @@ func (pp *c19Pipe) run(sc c19Scenario) {
 	dp.reg.add(t.tag, t.sess)
 	defer dp.reg.drop(t.tag)
 	base := runtime.NumGoroutine()
+	gBefore := c19Goroutines()
 	ctx, cancel := context.WithCancel(ctx0)
 	defer cancel()
 	var n68 atomic.Int32
@@ -1577,6 +1578,9 @@ func (pp *c19Pipe) run(sc c19Scenario) {
 			c.Note("tr-fail run %s: the module never reached its blocking point (err=%v)", sc.label(), o.err)
 		}
 	}
+	// exact, and before the caller's context is cancelled: no goroutine with a library frame that was not there before TO2
+	// (concurrent_more.go)
+	c19CheckLib(c, gBefore, "after-"+sc.mode, kind, p, ob)
 	cancel()
 	if got, ok := c19Settle(base, 2, 3*time.Second); !ok {
 		sig := "goroutine-leak"
@@ -2090,6 +2094,8 @@ func RunC19(c *core.Ctx) {
 		}
 		pp.sideProbe()
 		c.Note("part 2, fsim modules and side probe: %.1fs", time.Since(t3).Seconds())
+		// goroutine lifecycle under a fault at every message position; fsim.Command with a slow consumer (concurrent_more.go)
+		c19More(c, dp)
 		dp.e.Close()
 	}
 	c.Note("part 2: %.1fs", time.Since(t2).Seconds())
